@@ -4,11 +4,16 @@ package main
 // Stream `arrf`. Case lines (all answered by the generic ops of the Lean driver):
 //
 //	filter <namehex> <recv> <arg>*            x | name: a0, …   (every array filter but the sorts)
-//	sortc  <namehex> <recv> <key>?            x | sort[: key], x | sort_natural[: key] in CANONICAL FORM:
+//	sortc  <namehex> <recv> <key>?            x | sort[: key], x | sort_natural[: key]. A result of at most 12
+//	                                          elements is compared EXACTLY, `ok <enc>`: sort.Sort is an insertion
+//	                                          sort there (pdqsort: `if length <= 12 { insertionSort(…) }`), so the
+//	                                          list is determined for every comparator, a strict weak order or not
+//	                                          (numbers next to strings or nil, integers beyond 2^53 next to floats).
+//	                                          A longer result is compared in CANONICAL FORM,
 //	                                          `ok K:<k1>,<k2>,… M:<e1>,<e2>,…` — the sort keys of the result in
 //	                                          order (exact number `#n/d`, string `s<hex>`, nil `n`, bool `t`/`f`,
 //	                                          unordered `?`; for sort_natural the sort text) and the multiset of
-//	                                          the elements (encodings, sorted). Go's sort.Sort is unstable, so the
+//	                                          the elements (encodings, sorted): pdqsort is unstable, so the
 //	                                          order of ties is not compared; key sequence + multiset is what
 //	                                          "a sorted permutation" determines.
 //	numf <x> (<namehex> <arg|->)+             a chain x | f1: a1 | f2 …: value and rendering
@@ -31,6 +36,7 @@ package main
 
 import (
 	"fmt"
+	"math/big"
 	"reflect"
 	"sort"
 	"strings"
@@ -109,6 +115,9 @@ func refElems(recv *V) ([]*V, bool) {
 		}
 		for i := recv.A; i <= recv.B; i++ {
 			xs = append(xs, VInt(0, i))
+			if i == recv.B { // recv.B may be the largest int64: i++ would wrap around
+				break
+			}
 		}
 		return xs, true
 	case 'S', 'M':
@@ -304,11 +313,18 @@ func natTextV(v *V, key *V) string {
 	return ""
 }
 
-// canonSort: canonical result line of a sort case from the real result value
+// maxInsertion: up to this length sort.Sort is insertionSort (const maxInsertion of pdqsort)
+const maxInsertion = 12
+
+// canonSort: result line of a sort case from the real result value — the list itself up to 12 elements,
+// the canonical form beyond
 func canonSort(name string, out any, key *V) string {
 	rv := Reify(out)
 	if rv.Kind != 'L' || rv.Ty.C != 'a' {
 		return "ok-not-array " + rv.Enc()
+	}
+	if len(rv.Xs) <= maxInsertion {
+		return "ok " + rv.Enc()
 	}
 	keys := make([]string, len(rv.Xs))
 	for i, y := range rv.Xs {
@@ -546,6 +562,9 @@ func arrfOracle(r *Run, line, name string, recv *V, args []*V, out any, err erro
 		if want.Kind == 'D' || want.Kind == 'P' || want.Kind == 'N' { // the result passes through ValueOf().Interface()
 			return
 		}
+		if want.Kind == 'b' { // … which turns a []byte into the string it spells (values/convert.go)
+			want = VStr(want.S)
+		}
 		expectVal(want)
 	case "join":
 		sep := " "
@@ -713,7 +732,7 @@ func refStep(name string, cur *V, arg *V) (*V, bool) {
 		if name == "last" {
 			w = xs[len(xs)-1]
 		}
-		if w.Kind == 'D' || w.Kind == 'P' || w.Kind == 'N' {
+		if w.Kind == 'D' || w.Kind == 'P' || w.Kind == 'N' || w.Kind == 'b' {
 			return nil, false
 		}
 		return w, true
@@ -894,6 +913,7 @@ func mapElemUniverse() []*V {
 		VStrMap(SKV("k", i(1))), VStrMap(SKV("k", i(2))), VStrMap(SKV("k", i(1)), SKV("o", i(7))), VStrMap(SKV("k", VStr("a")), SKV("s", VStr("b"))),
 		VStrMap(SKV("k", VStr("B")), SKV("s", VStr("A"))), VStrMap(SKV("k", VNil())), VStrMap(SKV("o", i(3))), VNil(), i(5),
 		VStrMap(SKV("size", i(0)), SKV("k", i(3))),
+		VMap(TStr, TStr, SKV("k", VStr("b")), SKV("s", VStr("A"))), VMap(TStr, TStr, SKV("k", VStr("A"))), // typed maps as elements: map[string]string
 	}
 }
 
@@ -1142,6 +1162,63 @@ func arrfStream(r *Run) {
 		xs := rarr()
 		cs := []arrCall{all[g.Intn(len(all))], all[g.Intn(len(all))], all[g.Intn(len(all))]}
 		runArray(xs, cs, true, "random")
+	}
+	// (6) mixed-kind arrays of length 0..13: the comparators are not strict weak orders here (Less answers false
+	// across kinds and for nil; integers beyond 2^53 meet floats as float64), and up to 12 elements the result is
+	// nevertheless determined — Go's insertion sort — and compared element by element
+	bigI := func(k int, s string) *V {
+		n, _ := new(big.Int).SetString(s, 10)
+		return VBig(k, n)
+	}
+	mixU := []*V{
+		i(0), i(1), i(2), i(-1), i(3), VInt(4, 2), VInt(6, 1), VInt(9, 3), VFlt(1, 1.5), VFlt(1, 1), VFlt(0, 2.5), VFlt(1, -0.5), VFlt(1, 2),
+		VStr("a"), VStr("b"), VStr("B"), VStr(""), VStr("1"), VStr("10"), VStr("é"), VNil(), VNil(), VBool(true), VBool(false),
+		VStrMap(SKV("k", i(1))), VStrMap(SKV("k", VStr("a"))), VStrMap(), VAnys(i(1)), VAnys(), VRange(1, 2),
+		bigI(4, "9007199254740993"), bigI(4, "9007199254740992"), bigI(4, "9007199254740994"), VFlt(1, 9007199254740992), VFlt(1, 9007199254740994),
+		bigI(9, "18446744073709551615"), bigI(4, "9223372036854775807"), VFlt(1, 9223372036854775808), bigI(4, "-9007199254740993"), VFlt(1, -9007199254740992),
+	}
+	mixKeys := []*V{i(1), i(2), i(-1), VFlt(1, 1.5), VFlt(1, 1), VStr("a"), VStr("B"), VStr(""), VNil(), VBool(true), VBool(false), VAnys(i(1)), VStrMap(SKV("k", i(0))),
+		bigI(4, "9007199254740993"), bigI(4, "9007199254740992"), VFlt(1, 9007199254740992), bigI(9, "18446744073709551615"), VFlt(1, 18446744073709551616)}
+	mixElem := func(family int) *V {
+		switch family {
+		case 0: // anything
+			return mixU[g.Intn(len(mixU))]
+		case 1: // numbers, strings and nil
+			return mixU[g.Intn(21)]
+		case 2: // big integers next to floats
+			return mixU[30+g.Intn(10)]
+		case 3: // maps with keys of every kind, keyless maps, non-maps
+			switch g.Intn(8) {
+			case 0:
+				return VStrMap(SKV("o", i(int64(g.Intn(3)))))
+			case 1:
+				return mixU[g.Intn(len(mixU))]
+			default:
+				return VStrMap(SKV("k", mixKeys[g.Intn(len(mixKeys))]), SKV("id", i(int64(g.Intn(4)))))
+			}
+		default: // few distinct values: duplicates and ties
+			return []*V{i(1), VFlt(1, 1), VStr("1"), VNil(), VStr("a"), VStr("A"), VBool(true), VInt(4, 1), VStrMap(SKV("k", i(1))), VStrMap(SKV("k", VFlt(1, 1)))}[g.Intn(10)]
+		}
+	}
+	mixCalls := []arrCall{{"sort", nil}, {"sort", []*V{VStr("k")}}, {"sort_natural", nil}, {"sort_natural", []*V{VStr("k")}}}
+	nmix := 700
+	if thorough {
+		nmix = 12000
+	}
+	for k := 0; k < nmix; k++ {
+		ln := k % 14 // 0..13
+		if g.Chance(30) {
+			ln = 9 + g.Intn(5) // the long end: many comparisons across kinds
+		}
+		family := g.Intn(5)
+		xs := make([]*V, ln)
+		for j := range xs {
+			xs[j] = mixElem(family)
+			if j > 0 && g.Chance(15) {
+				xs[j] = xs[g.Intn(j)] // a duplicate of an earlier element
+			}
+		}
+		runArray(xs, mixCalls, k%5 == 0, fmt.Sprintf("mixed-%d", family))
 	}
 	chainNames := []string{"compact", "concat", "reverse", "uniq", "sort", "sort_natural", "first", "last", "size", "join", "map"}
 	for k := 0; k < n; k++ {
